@@ -61,6 +61,8 @@ pub enum Op {
     /// flush_meta then fsync_range over the whole virtual size
     Sync,
     Shrink,
+    /// Qcow2Dev::check(): walks every refcount block (loads and evicts slices), changes nothing
+    Check,
     /// flush_meta, drop the device, open a new one (same parameters)
     Reopen,
     /// same with the alternate parameters
@@ -80,6 +82,7 @@ impl Op {
             Op::Flush => "flush".into(),
             Op::Sync => "sync".into(),
             Op::Shrink => "shrink".into(),
+            Op::Check => "check".into(),
             Op::Reopen => "reopen".into(),
             Op::ReopenAlt => "reopen'".into(),
             Op::Alloc(n) => format!("alloc({})", n),
@@ -95,6 +98,7 @@ impl Op {
             Op::Flush => json!({"op":"flush"}),
             Op::Sync => json!({"op":"sync"}),
             Op::Shrink => json!({"op":"shrink"}),
+            Op::Check => json!({"op":"check"}),
             Op::Reopen => json!({"op":"reopen"}),
             Op::ReopenAlt => json!({"op":"reopen_alt"}),
             Op::Alloc(n) => json!({"op":"alloc","n":n}),
@@ -111,6 +115,7 @@ impl Op {
             "flush" => Op::Flush,
             "sync" => Op::Sync,
             "shrink" => Op::Shrink,
+            "check" => Op::Check,
             "reopen" => Op::Reopen,
             "reopen_alt" => Op::ReopenAlt,
             "alloc" => Op::Alloc(u("n")? as usize),
@@ -337,6 +342,7 @@ pub async fn run_op_async<T: qcow2_rs::ops::Qcow2IoOps>(dev: &Qcow2Dev<T>, op: &
             Err(e) => Err(format!("{e:?}")),
         },
         Op::Shrink => dev.shrink_caches().await.map(|_| 0).map_err(|e| format!("{e:?}")),
+        Op::Check => dev.check().await.map(|_| 0).map_err(|e| format!("{e:?}")),
         Op::Alloc(n) => match dev.verif_allocate_clusters(*n).await {
             Ok(Some(a)) => {
                 r.alloc = Some(a);
